@@ -1647,9 +1647,17 @@ class Shim(types.ModuleType):
             if isinstance(seq, (list, tuple)) and any(_is_larr(s) for s in seq):
                 return real(seq, *a, **k)
             if isinstance(seq, (list, tuple)) and any(_has_sym(s) for s in seq):
+                # the logical dtype of the result follows numpy's promotion of the operands
+                ldts = [_ldt_of(s) if isinstance(s, (SArr, _ND, rnp.generic)) else None for s in seq]
+                ldt = None
+                if ldts and all(d is not None and rnp.dtype(d).kind != "O" for d in ldts):
+                    try:
+                        ldt = rnp.result_type(*ldts)
+                    except TypeError:
+                        ldt = None
                 seq = [_plain(to_sarr(s)) for s in seq]
                 k.pop("dtype", None)
-                return wrap(real(seq, *a, **k))
+                return wrap(real(seq, *a, **k), ldt)
             r = real(to_real(seq) if isinstance(seq, (list, tuple)) else seq, *a, **k)
             return from_real(r) if core.active() else r
 
